@@ -1,6 +1,7 @@
 package main
 
 import (
+	"sync/atomic"
 	"bytes"
 	"context"
 	"fmt"
@@ -82,6 +83,11 @@ func solverCmd(name, file string, timeout time.Duration, seed int) *exec.Cmd {
 // raceSem bounds the number of obligations raced on three solvers at once (keeps timings stable under load)
 var raceSem = make(chan struct{}, 5)
 
+// seedRetries counts re-runs of undecided obligations under other seeds (bounded per run).
+var seedRetries int32
+
+const maxSeedRetries = 12
+
 type solveOut struct {
 	solver string
 	status string
@@ -120,6 +126,28 @@ func (e *Engine) solveOne(o *Obligation, axioms []axFact, cfg *SolverCfg, idx in
 		raceSem <- struct{}{}
 		e.solveOne(o, axioms, &c2, idx)
 		<-raceSem
+		// an undecided obligation (timeout / unknown, never a model) is tried again under two other solver seeds
+		// before it is reported: solver search is sensitive to incidental details of the query text. Bounded, so
+		// that a tree on which many obligations fail is not slowed down.
+		for _, ds := range []int{7919, 104729} {
+			if o.Status == "unsat" || o.Status == "sat" || o.Status == "error" {
+				break
+			}
+			if atomic.AddInt32(&seedRetries, 1) > maxSeedRetries {
+				break
+			}
+			c3 := c2
+			c3.Seed = cfg.Seed + ds
+			if c3.Timeout > 30*time.Second {
+				c3.Timeout = 30 * time.Second
+			}
+			raceSem <- struct{}{}
+			e.solveOne(o, axioms, &c3, idx)
+			<-raceSem
+			if o.Status == "unsat" {
+				o.Solver += fmt.Sprintf(" (seed %d)", c3.Seed)
+			}
+		}
 		return
 	}
 	names := cfg.Names
